@@ -102,4 +102,7 @@ def untranslated : List String := []
 /-- names of the translated definitions -/
 def translated : List String := ["Modified(target)", "Modify(origin,target)", "UpdateNFT_guard_1(denom_UpdateRestricted)", "UpdateNFT_cond_2(tokenURI,tokenURIHash,tokenNm,tokenData)", "UpdateNFT_token_Uri_1(token_Uri,tokenURI)", "UpdateNFT_token_UriHash_1(token_UriHash,tokenURIHash)", "UpdateNFT_cond_3(tokenNm,tokenData)", "UpdateNFT_nftMetadata_Name_1(nftMetadata_Name,tokenNm)", "UpdateNFT_nftMetadata_Data_1(nftMetadata_Data,tokenData)", "TransferOwnership_tokenChanged_1(tokenURI,tokenURIHash)", "TransferOwnership_tokenMetadataChanged_1(tokenNm,tokenData)", "TransferOwnership_guard_1(denom_UpdateRestricted,tokenChanged,tokenMetadataChanged)", "TransferOwnership_guard_2(tokenChanged,tokenMetadataChanged)", "TransferOwnership_token_Uri_1(token_Uri,tokenURI)", "TransferOwnership_token_UriHash_1(token_UriHash,tokenURIHash)", "TransferOwnership_cond_3(tokenMetadataChanged)", "TransferOwnership_nftMetadata_Name_1(nftMetadata_Name,tokenNm)", "TransferOwnership_nftMetadata_Data_1(nftMetadata_Data,tokenData)", "MintNFT_guard_1(denom_MintRestricted,denom_Creator,read_sender_String)", "TransferDenomOwner_guard_1(read_srcOwner_String,denom_Creator)", "Authorize_guard_1(read_owner_Equals_k_nk_GetOwner_ctx_denomID_tokenID)"]
 
+/-- every rejecting guard of the translated functions, in source order -/
+def guards : List String := ["UpdateNFT: denom, err := k.GetDenomInfo(ctx, denomID); err != nil", "UpdateNFT: denom.UpdateRestricted", "UpdateNFT: err := k.Authorize(ctx, denomID, tokenID, owner); err != nil", "UpdateNFT: !exist", "UpdateNFT: nftMetadata, err := types.UnmarshalNFTMetadata(k.cdc, token.Data.GetValue()); err != nil", "UpdateNFT: data, err := codectypes.NewAnyWithValue(&nftMetadata); err != nil", "TransferOwnership: !exist", "TransferOwnership: err := k.Authorize(ctx, denomID, tokenID, srcOwner); err != nil", "TransferOwnership: denom, err := k.GetDenomInfo(ctx, denomID); err != nil", "TransferOwnership: denom.UpdateRestricted && (tokenChanged || tokenMetadataChanged)", "TransferOwnership: !tokenChanged && !tokenMetadataChanged", "TransferOwnership: nftMetadata, err := types.UnmarshalNFTMetadata(k.cdc, token.Data.GetValue()); err != nil", "TransferOwnership: data, err := codectypes.NewAnyWithValue(&nftMetadata); err != nil", "TransferOwnership: err := k.nk.Update(ctx, token); err != nil", "MintNFT: recipient, err := sdk.AccAddressFromBech32(msg.Recipient); err != nil", "MintNFT: sender, err := sdk.AccAddressFromBech32(msg.Sender); err != nil", "MintNFT: denom, err := k.GetDenomInfo(ctx, msg.DenomId); err != nil", "MintNFT: denom.MintRestricted && denom.Creator != sender.String()", "MintNFT: err := k.SaveNFT(ctx, msg.DenomId, msg.Id, msg.Name, msg.URI, msg.UriHash, msg.Data, recipient, ); err != nil", "TransferDenomOwner: denom, err := k.GetDenomInfo(ctx, denomID); err != nil", "TransferDenomOwner: srcOwner.String() != denom.Creator", "TransferDenomOwner: data, err := codectypes.NewAnyWithValue(denomMetadata); err != nil", "Authorize: !owner.Equals(k.nk.GetOwner(ctx, denomID, tokenID))", "Keeper.IssueDenom: sender, err := sdk.AccAddressFromBech32(msg.Sender); err != nil", "Keeper.IssueDenom: err := k.SaveDenom(ctx, msg.Id, msg.Name, msg.Schema, msg.Symbol, sender, msg.MintRestricted, msg.UpdateRestricted, msg.Description, msg.Uri, msg.UriHash, msg.Data, ); err != nil", "Keeper.EditNFT: sender, err := sdk.AccAddressFromBech32(msg.Sender); err != nil", "Keeper.EditNFT: err := k.UpdateNFT(ctx, msg.DenomId, msg.Id, msg.Name, msg.URI, msg.UriHash, msg.Data, sender, ); err != nil", "Keeper.TransferNFT: sender, err := sdk.AccAddressFromBech32(msg.Sender); err != nil", "Keeper.TransferNFT: recipient, err := sdk.AccAddressFromBech32(msg.Recipient); err != nil", "Keeper.TransferNFT: err := k.TransferOwnership(ctx, msg.DenomId, msg.Id, msg.Name, msg.URI, msg.UriHash, msg.Data, sender, recipient, ); err != nil", "Keeper.BurnNFT: sender, err := sdk.AccAddressFromBech32(msg.Sender); err != nil", "Keeper.BurnNFT: err := k.RemoveNFT(ctx, msg.DenomId, msg.Id, sender); err != nil", "Keeper.TransferDenom: sender, err := sdk.AccAddressFromBech32(msg.Sender); err != nil", "Keeper.TransferDenom: recipient, err := sdk.AccAddressFromBech32(msg.Recipient); err != nil", "Keeper.TransferDenom: err := k.TransferDenomOwner(ctx, msg.Id, sender, recipient); err != nil", "Keeper.RemoveNFT: err := k.Authorize(ctx, denomID, tokenID, owner); err != nil", "Keeper.SaveNFT: data, err := codectypes.NewAnyWithValue(nftMetadata); err != nil"]
+
 end Irismod.Gen.PureNft
